@@ -31,4 +31,7 @@ OBLIGATIONS = [
      imported("C05", "decode_contract", "interpreter_decodes_every_instruction_word_as_specified"),
      imported("C04", "jit_IMUL_RCP_dst3_noop", "jit_and_interpreter_agree_on_IMUL_RCP_noop"),
      imported("C04", "jit_IMUL_RCP_dst3_multiply", "jit_and_interpreter_agree_on_IMUL_RCP_multiply"),
-     imported("C04", "jit_ISTORE", "jit_and_interpreter_agree_on_ISTORE")]
+     imported("C04", "jit_ISTORE", "jit_and_interpreter_agree_on_ISTORE"),
+     # a compiled light VM holds generated SuperscalarHash code, an interpreted one reads the cache's programs: they agree after
+     # re-keying only if set_cache re-binds (recompiles) whenever the cache content changed
+     imported("C03", "set_cache_rebinds_for_every_history", "compiled_and_interpreted_light_vm_rebind_whenever_the_cache_changed")]
